@@ -6,7 +6,7 @@ from concurrent.futures import ThreadPoolExecutor
 from pathlib import Path
 V = Path(__file__).resolve().parent.parent
 SCR = Path("/dev/shm/rv"); SCR.mkdir(exist_ok=True)
-ids = sys.argv[1:] or sorted(p.name for p in (V / "seeded").iterdir() if p.is_dir())
+ids = sys.argv[1:] or sorted(p.name for p in (V / "seeded").iterdir() if p.is_dir() and not p.name.startswith("_"))
 
 def sh(cmd, cwd, timeout=300):
     try:
